@@ -1,6 +1,7 @@
 package main
 
 import (
+	"strings"
 	"encoding/json"
 	"flag"
 	"fmt"
@@ -39,6 +40,10 @@ func main() {
 	}
 	repoDir = *repo
 	verifDir = *vdir
+	if strings.HasPrefix(*fluent, "GUARDS:") {
+		runGuardsDump(strings.TrimPrefix(*fluent, "GUARDS:"))
+		return
+	}
 	if *fluent == "COVERAGE" {
 		runCoverageSurvey()
 		return
